@@ -163,6 +163,17 @@ Proof.
         -- eapply pu_nb0; eauto.
 Qed.
 
+Lemma push_wait_length par (nb : list (nat * T)) : forall wait st wait' st',
+  push_wait par nb wait st = (wait', st') -> length st' + length wait' = length st + length wait.
+Proof.
+  induction nb as [|[j b] rest IH]; simpl; intros wait st wait' st' Hq.
+  - inversion Hq; subst; reflexivity.
+  - destruct (wmem j wait) eqn:Em.
+    + apply wmem_In in Em. pose proof (remove1_length j wait Em).
+      rewrite (IH _ _ _ _ Hq). simpl. lia.
+    + apply (IH _ _ _ _ Hq).
+Qed.
+
 Lemma push_init_wait k (nb : list (nat * T)) : forall wait st ws,
   push_init k nb wait st = Ok ws -> push_wait k nb wait st = ws.
 Proof.
@@ -187,10 +198,10 @@ Lemma move_loop_step tb fuel pos wait p c b rest out wf tr :
 Proof.
   destruct fuel as [|fuel]; simpl; [discriminate|].
   unfold nth_res.
-  destruct (nth_error pos p) as [p1|]; simpl; [|discriminate].
-  destruct (nth_error pos c) as [p2|]; simpl; [|discriminate].
-  destruct (pull p1 p2 b) as [p2'|]; simpl; [|discriminate].
-  destruct (tbl_get tb c) as [nb|]; simpl; [|discriminate].
+  destruct (nth_error pos p) as [p1|] eqn:E1; simpl; [|discriminate].
+  destruct (nth_error pos c) as [p2|] eqn:E2; simpl; [|discriminate].
+  destruct (pull p1 p2 b) as [p2'|] eqn:E3; simpl; [|discriminate].
+  destruct (tbl_get tb c) as [nb|] eqn:E4; simpl; [|discriminate].
   destruct (push_wait c nb wait rest) as [wait' st'] eqn:Ep.
   destruct (move_loop tb fuel (set_nth pos c p2') wait' st') as [[[o w] t]|] eqn:El; simpl; [|discriminate].
   intros Hq; inversion Hq; subst.
@@ -238,7 +249,7 @@ Proof.
   destruct (Ip (p, c, b) (or_introl eq_refl)) as (Hp_n & Hp_w & Hp_c). unfold e_parent in *; simpl in *.
   assert (Hpc : p <> c) by (intros E; apply Hp_c; left; unfold e_child; simpl; auto).
   assert (Hnew : forall x, In x (children new) -> In x wait /\ ~ In x wait')
-    by (apply new_child_in_wait).
+    by (exact (new_child_in_wait _ _ _ _ _ _ _ P)).
   assert (Est : children st' = children new ++ children rest)
     by (rewrite (pu_st _ _ _ _ _ _ _ P); apply children_app).
   split; [|split; [exact P|split; [|repeat split; auto]]].
@@ -272,14 +283,13 @@ Proof.
       assert (Hiw : ~ In i wait).
       { intros Hi. destruct (pu_split _ _ _ _ _ _ _ P i Hi); auto. }
       repeat split; auto. intros [E|Hr]; [unfold e_child in E; simpl in E; congruence|auto].
-    + intros [(Hn & Hw & Hc)|->].
+    + intros [(Hn & Hw & Hc)|Eic].
       * repeat split; auto.
         -- intros Hi; apply Hw; apply (pu_incl _ _ _ _ _ _ _ P); assumption.
         -- rewrite in_app_iff. intros [Hnw|Hr]; [destruct (Hnew _ Hnw); contradiction|auto].
-      * repeat split; auto.
+      * subst i. repeat split; auto.
         -- intros Hi; apply Hc_wait; apply (pu_incl _ _ _ _ _ _ _ P); assumption.
         -- rewrite in_app_iff. intros [Hnw|Hr]; [destruct (Hnew _ Hnw); contradiction|contradiction].
-  - unfold done. repeat split; auto.
 Qed.
 
 (* ------------------------------------------------------------------ shape of a trace *)
@@ -301,6 +311,13 @@ Proof.
   revert S; induction tr as [|e0 tr IH]; simpl; intros S Hok e He; [contradiction|].
   destruct Hok as (A & B & C). destruct He as [->|He]; auto.
   intros Hs. apply (IH _ C e He). left; assumption.
+Qed.
+
+Lemma tr_ok_irrefl S tr : tr_ok S tr -> forall e, In e tr -> e_parent e <> e_child e.
+Proof.
+  revert S; induction tr as [|e0 tr IH]; simpl; intros S Hok e He; [contradiction|].
+  destruct Hok as (A & B & C). destruct He as [->|He]; [|eapply IH; eauto].
+  intros E. apply B. rewrite <- E. assumption.
 Qed.
 
 Lemma tr_ok_nodup S tr : tr_ok S tr -> NoDup (children tr).
@@ -341,14 +358,11 @@ Lemma move_loop_positions tb : forall fuel pos wait st out wf tr,
 Proof.
   induction fuel as [|fuel IH]; intros pos wait st out wf tr Hq I.
   - destruct st as [|[[p c] b] rest]; simpl in Hq; [|discriminate].
-    inversion Hq; subst. repeat split; auto; try (intros; contradiction).
-    + intros x Hx; exact Hx.
-    + intros i [Hi|Hi]; auto.
+    inversion Hq; subst.
+    repeat split; auto; try (intros; contradiction); try (intros x Hx; exact Hx); try (intros i [Hi|Hi]; auto).
   - destruct st as [|[[p c] b] rest].
     + apply move_loop_nil in Hq. destruct Hq as (-> & -> & ->).
-      repeat split; auto; try (intros; contradiction).
-      * intros x Hx; exact Hx.
-      * intros i [Hi|Hi]; auto.
+      repeat split; auto; try (intros; contradiction); try (intros x Hx; exact Hx); try (intros i [Hi|Hi]; auto).
     + apply move_loop_step in Hq.
       destruct Hq as (f' & p1 & p2 & p2' & nb & wait' & st' & tr' & Ef & Hp1 & Hp2 & Hpull & Htb & Hpush & Hloop & ->).
       inversion Ef; subst f'.
@@ -392,8 +406,7 @@ Proof.
       * intros e [<-|He].
         -- unfold e_parent, e_child, e_len; simpl.
            exists p1, p2, p2'. repeat split; auto.
-           ++ destruct Hpd as (_ & A & B). simpl in B.
-              assert (Hpd' : done wait' st' p) by (apply Hdone; left; repeat split; auto).
+           ++ assert (Hpd' : done wait' st' p) by (apply Hdone; left; exact Hpd).
               destruct Hpd' as (_ & A' & B').
               rewrite (Hframe p A' B'). rewrite nth_error_set_nth_neq; auto.
            ++ destruct Hnot' as [A' B']. rewrite (Hframe c A' B'). apply nth_error_set_nth_eq; assumption.
@@ -401,7 +414,6 @@ Proof.
            exists q1, q2, q2'. repeat split; auto.
            rewrite <- B. symmetry. apply nth_error_set_nth_neq.
            intros E. apply (Hsub (e_child e)); auto.
-           destruct (Hch e He); auto.
 Qed.
 
 (* ------------------------------------------------------------------ the loop: shape of the trace *)
@@ -432,7 +444,7 @@ Proof.
       inversion Ef; subst f'.
       destruct (inv_step _ _ _ _ _ _ _ _ I Hpush) as (new & I' & P & Hdone & Hcn & Hcw & Hcr & Hpc & Hpd).
       destruct (IH _ _ _ _ _ _ Hloop I') as (Hok & Hlen & Hnd & Hfrom & Hclos).
-      repeat split; auto.
+      split; [|split; [|split; [assumption|split]]].
       * simpl. split; [exact Hpd|]. split.
         -- unfold done. intros (_ & _ & A). apply A. simpl; left; reflexivity.
         -- eapply tr_ok_ext; [|exact Hok]. intros i. apply Hdone.
@@ -466,16 +478,215 @@ Proof.
     2:{ unfold tbl_get in Etb. destruct (nth_error tb c) as [[?|]|]; inversion Etb; discriminate. }
     destruct (push_wait c nb wait rest) as [wait' st'] eqn:Ep.
     assert (Hl : length st' + length wait' <= fuel).
-    { clear IH. revert wait rest wait' st' Ep Hle. induction nb as [|[j b'] nb IHn]; simpl; intros wait rest wait' st' Ep Hle.
-      - inversion Ep; subst. simpl in Hle. lia.
-      - destruct (wmem j wait) eqn:Em.
-        + apply wmem_In in Em. pose proof (remove1_length j wait Em).
-          apply (IHn _ _ _ _ Ep). simpl in *. lia.
-        + apply (IHn _ _ _ _ Ep). assumption. }
+    { pose proof (push_wait_length _ _ _ _ _ _ Ep). simpl in Hle. lia. }
     specialize (IH (set_nth pos c p2') wait' st' Hl).
     destruct (move_loop tb fuel (set_nth pos c p2') wait' st') as [[[o w] t]|e]; simpl; [discriminate|].
     intros E; inversion E; subst; apply IH; reflexivity.
 Qed.
 
 End Inv.
+
+(* ------------------------------------------------------------------ the whole function *)
+Lemma move_tr_unfold pos tb k d fuel out wf tr :
+  move_mol_atom_tr pos tb k d fuel = Ok (out, wf, tr) ->
+  exists pk nb wait0 st0,
+    nth_error pos k = Some pk /\ tbl_get tb k = Ok nb /\
+    push_wait k nb (remove1 k (seq 0 (length pos))) [] = (wait0, st0) /\
+    move_loop tb fuel (set_nth pos k (vadd pk d)) wait0 st0 = Ok (out, wf, tr).
+Proof.
+  unfold move_mol_atom_tr, nth_res.
+  destruct (nth_error pos k) as [pk|] eqn:Ek; simpl; [|discriminate].
+  destruct (wremove k (seq 0 (length pos))) as [w|] eqn:Ew; simpl; [|discriminate].
+  destruct (tbl_get tb k) as [nb|] eqn:Et; simpl; [|discriminate].
+  destruct (push_init k nb w []) as [[wait0 st0]|] eqn:Ei; simpl; [|discriminate].
+  intros Hl. apply wremove_ok in Ew. destruct Ew as [_ ->].
+  apply push_init_wait in Ei.
+  exists pk, nb, wait0, st0. auto.
+Qed.
+
+Lemma init_state (n k : nat) (nb : list (nat * T)) wait0 st0 :
+  k < n -> push_wait k nb (remove1 k (seq 0 n)) [] = (wait0, st0) ->
+  inv n wait0 st0 /\
+  (forall i, done n wait0 st0 i <-> i = k) /\
+  (forall e, In e st0 -> e_parent e = k /\ In (e_child e, e_len e) nb) /\
+  (forall j b, In (j, b) nb -> ~ In j wait0) /\
+  length st0 + length wait0 = n - 1 /\
+  (forall x, In x wait0 -> x < n /\ x <> k).
+Proof.
+  intros Hk Hp.
+  assert (Hnd : NoDup (remove1 k (seq 0 n))) by (apply remove1_NoDup, seq_NoDup).
+  assert (Hkw : ~ In k (remove1 k (seq 0 n))) by (apply remove1_notin, seq_NoDup).
+  assert (Hlt : forall x, In x (remove1 k (seq 0 n)) -> x < n).
+  { intros x Hx. apply remove1_incl in Hx. apply in_seq in Hx. lia. }
+  destruct (push_wait_spec _ _ _ _ _ _ Hnd Hp) as [new P].
+  pose proof (pu_st _ _ _ _ _ _ _ P) as Est. rewrite app_nil_r in Est. subst st0.
+  pose proof (new_child_in_wait _ _ _ _ _ _ _ P) as Hnew.
+  assert (Hk0 : ~ In k wait0) by (intros Hi; apply Hkw; apply (pu_incl _ _ _ _ _ _ _ P); assumption).
+  assert (Hkc : ~ In k (children new)) by (intros Hi; apply Hkw; apply Hnew; assumption).
+  split; [constructor|split; [|split; [|split; [|split]]]].
+  - apply (pu_nodup _ _ _ _ _ _ _ P).
+  - apply (pu_nodup_new _ _ _ _ _ _ _ P).
+  - intros x Hx Hc. destruct (Hnew x Hc); contradiction.
+  - intros e He. destruct (pu_edge _ _ _ _ _ _ _ P e He) as (A & _). rewrite A. auto.
+  - intros x [Hx|Hx]; apply Hlt; [apply (pu_incl _ _ _ _ _ _ _ P)|apply Hnew]; assumption.
+  - intros i. split.
+    + intros (Hi & Hw & Hc). destruct (Nat.eq_dec i k) as [E|Hne]; auto. exfalso.
+      assert (Hin : In i (remove1 k (seq 0 n))) by (apply remove1_other; auto; apply in_seq; lia).
+      destruct (pu_split _ _ _ _ _ _ _ P i Hin); contradiction.
+    + intros ->. unfold done. auto.
+  - intros e He. destruct (pu_edge _ _ _ _ _ _ _ P e He) as (A & _ & _ & D). auto.
+  - apply (pu_nb _ _ _ _ _ _ _ P).
+  - pose proof (pu_len _ _ _ _ _ _ _ P) as Hl.
+    assert (Hs : S (length (remove1 k (seq 0 n))) = n).
+    { rewrite remove1_length; [apply seq_length|apply in_seq; lia]. }
+    lia.
+  - intros x Hx. split.
+    + apply Hlt. apply (pu_incl _ _ _ _ _ _ _ P); assumption.
+    + intros E; subst x. contradiction.
+Qed.
+
+(* complete description of a successful run (any Scalar): the moved atom, the atoms never reached,
+   and every other atom repositioned exactly once, from its input position, against the final
+   position of its parent in the traversal tree *)
+Definition rooted_tree (k : nat) (tr : list edge) : Prop := tr_ok (fun i => i = k) tr.
+
+Record move_result (pos : list (V3 T)) (tb : bond_table) (k : nat) (d : V3 T)
+       (out : list (V3 T)) (wf : list nat) (tr : list edge) : Prop := {
+  mr_len : length out = length pos;
+  mr_moved : exists pk, nth_error pos k = Some pk /\ nth_error out k = Some (vadd pk d);
+  mr_unreached : forall i, In i wf -> i < length pos /\ i <> k /\ nth_error out i = nth_error pos i;
+  mr_edges : forall e, In e tr -> from_table tb e /\ exists p1 p2 p2',
+      nth_error out (e_parent e) = Some p1 /\ nth_error pos (e_child e) = Some p2 /\
+      pull p1 p2 (e_len e) = Ok p2' /\ nth_error out (e_child e) = Some p2';
+  mr_tree : rooted_tree k tr;
+  mr_cover : forall i, i < length pos -> i = k \/ In i wf \/ In i (children tr);
+  mr_count : length tr + length wf = length pos - 1;
+  mr_closed : forall i nb, i < length pos -> ~ In i wf -> tbl_get tb i = Ok nb ->
+              forall j b, In (j, b) nb -> ~ In j wf
+}.
+
+Lemma move_tr_result pos tb k d fuel out wf tr :
+  move_mol_atom_tr pos tb k d fuel = Ok (out, wf, tr) -> move_result pos tb k d out wf tr.
+Proof.
+  intros Hq. apply move_tr_unfold in Hq.
+  destruct Hq as (pk & nb & wait0 & st0 & Hk & Htb & Hpush & Hloop).
+  set (n := length pos) in *.
+  assert (Hkn : k < n) by (apply nth_error_Some; congruence).
+  destruct (init_state n k nb wait0 st0 Hkn Hpush) as (I & Hdone & Hst & Hnb & Hcnt & Hw0).
+  destruct (move_loop_positions n tb _ _ _ _ _ _ _ Hloop I) as (Hlen & Hincl & Hch & Hcov & Hframe & Hwf & Hed).
+  destruct (move_loop_trace n tb _ _ _ _ _ _ _ Hloop I) as (Hok & Hlen2 & Hnd & Hfrom & Hclos).
+  assert (Hdk : done n wait0 st0 k) by (apply Hdone; reflexivity).
+  assert (Hroot : rooted_tree k tr).
+  { unfold rooted_tree. eapply tr_ok_ext; [|exact Hok]. intros i; apply Hdone. }
+  constructor.
+  - rewrite Hlen. apply set_nth_length.
+  - exists pk. split; auto. destruct Hdk as (_ & A & B). rewrite (Hframe k A B).
+    apply nth_error_set_nth_eq. assumption.
+  - intros i Hi. destruct (Hw0 i (Hincl i Hi)) as [A B]. repeat split; auto.
+    rewrite (Hwf i Hi). apply nth_error_set_nth_neq. auto.
+  - intros e He. split.
+    + destruct (Hfrom e He) as [Hs|Hf]; auto.
+      destruct (Hst e Hs) as [A B]. exists nb. rewrite A. auto.
+    + destruct (Hed e He) as (p1 & p2 & p2' & A & B & C & D).
+      exists p1, p2, p2'. repeat split; auto.
+      rewrite <- B. symmetry. apply nth_error_set_nth_neq.
+      intros E. apply (tr_ok_child _ _ Hroot e He). symmetry; assumption.
+  - exact Hroot.
+  - intros i Hi. destruct (Nat.eq_dec i k) as [E|Hne]; auto. right.
+    apply Hcov. destruct (in_dec Nat.eq_dec i wait0) as [Hw|Hw]; auto.
+    destruct (in_dec Nat.eq_dec i (children st0)) as [Hc|Hc]; auto.
+    exfalso. apply Hne. apply Hdone. repeat split; auto.
+  - lia.
+  - apply Hclos. intros i nb' Hi Hg j b Hj. apply Hdone in Hi. subst i.
+    rewrite Htb in Hg. inversion Hg; subst nb'. eapply Hnb; eauto.
+Qed.
+
+(* fuel: length pos suffices *)
+Lemma move_tr_fuel pos tb k d : move_mol_atom_tr pos tb k d (length pos) <> Err EFuel.
+Proof.
+  unfold move_mol_atom_tr, nth_res.
+  destruct (nth_error pos k) as [pk|] eqn:Ek; simpl; [|discriminate].
+  assert (Hkn : k < length pos) by (apply nth_error_Some; congruence).
+  unfold wremove. destruct (wmem k (seq 0 (length pos))); simpl; [|discriminate].
+  destruct (tbl_get tb k) as [nb|e] eqn:Et; simpl.
+  2:{ unfold tbl_get in Et. destruct (nth_error tb k) as [[?|]|]; inversion Et; discriminate. }
+  destruct (push_init k nb (remove1 k (seq 0 (length pos))) []) as [[wait0 st0]|e] eqn:Ei; simpl.
+  - apply push_init_wait in Ei.
+    destruct (init_state _ _ _ _ _ Hkn Ei) as (_ & _ & _ & _ & Hcnt & _).
+    apply move_loop_fuel. lia.
+  - intros E; inversion E; subst e. clear -Ei.
+    revert Ei. generalize (remove1 k (seq 0 (length pos))) as w. generalize (@nil edge) as st.
+    induction nb as [|[j b] nb IH]; simpl; intros st w Ei; [discriminate|].
+    unfold wremove in Ei. destruct (wmem j w); simpl in Ei; [eapply IH; eauto|discriminate].
+Qed.
+
+
+(* ------------------------------------------------------------------ the only failure on well-formed input
+   is a zero distance *)
+Lemma pull_cases (p1 p2 : V3 T) b : (exists q, pull p1 p2 b = Ok q) \/ pull p1 p2 b = Err EDiv0.
+Proof. unfold pull. destruct (seqb _ _); eauto. Qed.
+
+Lemma move_loop_total n tb : (forall i, i < n -> exists l, tbl_get tb i = Ok l) ->
+  forall fuel pos wait st, inv n wait st -> length pos = n -> length st + length wait <= fuel ->
+  (exists r, move_loop tb fuel pos wait st = Ok r) \/ move_loop tb fuel pos wait st = Err EDiv0.
+Proof.
+  intros Hkeys. induction fuel as [|fuel IH]; intros pos wait st I Hlen Hle.
+  - destruct st; simpl in *; [eauto|lia].
+  - destruct st as [|[[p c] b] rest]; [simpl; eauto|].
+    assert (Hpn : p < n) by (apply (inv_par _ _ _ I (p, c, b)); left; reflexivity).
+    assert (Hcn : c < n) by (apply (inv_lt _ _ _ I); right; left; reflexivity).
+    destruct (nth_error pos p) as [p1|] eqn:E1; [|apply nth_error_None in E1; lia].
+    destruct (nth_error pos c) as [p2|] eqn:E2; [|apply nth_error_None in E2; lia].
+    destruct (Hkeys c Hcn) as [nb Hnb].
+    simpl. unfold nth_res. rewrite E1, E2. cbn [bind].
+    destruct (pull_cases p1 p2 b) as [[q Hq]|Hq]; rewrite Hq; cbn [bind]; [|auto].
+    rewrite Hnb. cbn [bind].
+    destruct (push_wait c nb wait rest) as [wait' st'] eqn:Ep.
+    destruct (inv_step _ _ _ _ _ _ _ _ _ I Ep) as (new & I' & _).
+    pose proof (push_wait_length _ _ _ _ _ _ Ep) as Hl. simpl in Hle.
+    destruct (IH (set_nth pos c q) wait' st' I') as [[[[o w] t] Hr]|Hr].
+    + rewrite set_nth_length; assumption.
+    + lia.
+    + rewrite Hr. cbn [bind]. eauto.
+    + rewrite Hr. cbn [bind]. auto.
+Qed.
+
+Lemma push_init_ok k : forall (nb : list (nat * T)) wait st,
+  NoDup (map fst nb) -> (forall j b, In (j, b) nb -> In j wait) ->
+  exists ws, push_init k nb wait st = Ok ws.
+Proof.
+  induction nb as [|[j b] nb IH]; simpl; intros wait st Hnd Hin; [eauto|].
+  inversion Hnd as [|? ? Hj Hnd']; subst.
+  unfold wremove. assert (Hm : wmem j wait = true) by (apply wmem_In; eapply Hin; left; reflexivity).
+  rewrite Hm. cbn [bind]. apply IH; auto.
+  intros j' b' Hi. apply remove1_other; [|eapply Hin; right; eassumption].
+  intros E; subst j'. apply Hj. apply in_map_iff. exists (j, b'). auto.
+Qed.
+
+(* table with an entry for every atom; the moved atom's neighbours are distinct atoms other than itself *)
+Definition table_ok (n : nat) (tb : bond_table) (k : nat) : Prop :=
+  k < n /\ (forall i, i < n -> exists l, tbl_get tb i = Ok l) /\
+  (forall l, tbl_get tb k = Ok l -> NoDup (map fst l) /\ forall j b, In (j, b) l -> j < n /\ j <> k).
+
+Lemma move_tr_total pos tb k d : table_ok (length pos) tb k ->
+  (exists r, move_mol_atom_tr pos tb k d (length pos) = Ok r) \/
+  move_mol_atom_tr pos tb k d (length pos) = Err EDiv0.
+Proof.
+  intros (Hk & Hkeys & Hnbk). unfold move_mol_atom_tr, nth_res.
+  destruct (nth_error pos k) as [pk|] eqn:Ek; [|apply nth_error_None in Ek; lia].
+  cbn [bind]. unfold wremove.
+  assert (Hm : wmem k (seq 0 (length pos)) = true) by (apply wmem_In, in_seq; lia).
+  rewrite Hm. cbn [bind].
+  destruct (Hkeys k Hk) as [nb Hnb]. rewrite Hnb. cbn [bind].
+  destruct (Hnbk nb Hnb) as [Hnd Hrange].
+  destruct (push_init_ok k nb (remove1 k (seq 0 (length pos))) [] Hnd) as [[wait0 st0] Hi].
+  { intros j b Hj. destruct (Hrange j b Hj). apply remove1_other; auto. apply in_seq; lia. }
+  rewrite Hi. cbn [bind fst snd].
+  apply push_init_wait in Hi.
+  destruct (init_state _ _ _ _ _ Hk Hi) as (I & _ & _ & _ & Hcnt & _).
+  apply (move_loop_total (length pos) tb Hkeys); auto.
+  - apply set_nth_length.
+  - lia.
+Qed.
+
 End Comb.
